@@ -114,21 +114,26 @@ def op_group(op):
     w = op.split(" ")
     if w[0] in ("reset", "add", "del"):
         return None
-    return int(w[1])
+    return int(w[2]) if w[0] == "bad" else int(w[1])
 
 
 # ------------------------------------------------------------------ history generator
 GROUPS = [1, 2]
 CONSUMERS = [1, 2, 3]
+BAD_KINDS = ["create-badid", "create-arity", "create-wrongtype", "setid-badid", "setid-arity", "setid-wrongtype", "destroy-arity",
+             "destroy-wrongtype", "delc-arity", "delc-wrongtype", "createc-arity", "unknown-sub", "ack-badid", "ack-arity", "ack-wrongtype",
+             "claim-badidle", "claim-badid", "claim-arity", "read-badid", "read-unbalanced", "read-syntax", "pending-badcount", "pending-syntax"]
+REFUSALS = ("busy", "nogroup", "err", "refused")
 
 
 class Gen:
     """Builds one history step by step, looking at the implementation's last dump so that acknowledgements,
     claims and ranges mostly hit real pending ids (plus repeats and unknown ids)."""
 
-    def __init__(self, r, clean):
+    def __init__(self, r, clean, quirks=None):
         self.r = r
         self.clean = clean          # clean = no operation that triggers a known deviation
+        self.quirks = quirks or {}  # repairs present in the tree: what they repair is allowed in clean histories
         self.top = (0, 0)           # largest id ever added
 
     def some_ids(self, stream, groups, g, n_max=4):
@@ -156,20 +161,52 @@ class Gen:
             return (0, 0)
         return (r.range(0, self.top[0] + 3), r.below(2))
 
+    def start_id(self, stream, groups, g):
+        """start id of an XGROUP CREATE: 0 / $ / an explicit id (clean histories: only what the tree handles as prescribed)"""
+        r = self.r
+        if self.clean and not self.quirks.get("startFix"):
+            return "0-0"
+        s = r.below(7)
+        if s < 2:
+            return "$"
+        if s < 4:
+            return "0-0"
+        if s < 5 and g in groups:
+            return sid(groups[g].last)                 # the group's present cursor
+        return sid(self.any_id(stream))
+
+    def admin_on_state(self, stream, groups):
+        """administration aimed at groups that HAVE STATE (pending entries, a moved cursor): a second XGROUP CREATE
+        (must be refused with BUSYGROUP and change nothing), DELCONSUMER / CREATECONSUMER / SETID / DESTROY, and malformed commands"""
+        r = self.r
+        loaded = [g for g in groups if groups[g].pending_ids or groups[g].last != (0, 0)]
+        g = r.choice(loaded) if loaded and r.chance(4, 5) else r.choice(GROUPS)
+        k = r.below(20)
+        if k < 8:
+            return "create %d %s" % (g, self.start_id(stream, groups, g))
+        if k < 11:
+            owners = sorted({e[1] for e in groups[g].by_id}) if g in groups else []
+            return "delc %d %d" % (g, r.choice(owners) if owners and r.chance(2, 3) else r.choice(CONSUMERS))
+        if k < 13:
+            return "createc %d %d" % (g, r.choice(CONSUMERS))
+        if k < 15:
+            if self.clean:
+                cur = groups[g].last if g in groups else (0, 0)
+                return "setid %d %s" % (g, sid(r.choice([i for i in stream if i >= cur] + [cur])))
+            return "setid %d %s" % (g, r.choice(["$", "0-0", sid(self.any_id(stream))]))
+        if k < 16:
+            return "destroy %d" % g
+        return "bad %s %d" % (r.choice(BAD_KINDS), g)
+
     def next_op(self, stream, groups):
         r, clean = self.r, self.clean
         missing = [g for g in GROUPS if g not in groups]
         k = r.below(100)
         if missing and (k < 25 or (len(missing) == len(GROUPS) and k < 60)):
             g = r.choice(missing)
-            if clean:
-                return "create %d 0-0" % g
-            s = r.below(6)
-            if s < 2:
-                return "create %d $" % g
-            if s < 3:
-                return "create %d 0-0" % g
-            return "create %d %s" % (g, sid(self.any_id(stream)))
+            return "create %d %s" % (g, self.start_id(stream, groups, g))
+        if r.chance(1, 9):
+            return self.admin_on_state(stream, groups)
         g = r.choice(GROUPS)
         c = r.choice(CONSUMERS)
         if k < 22:
@@ -183,10 +220,10 @@ class Gen:
             return "del " + sids(self.some_ids(stream, groups, g, 2))
         if k < 52:
             count = r.choice(["-", "-", "1", "2", "2", "3", "0"])
-            noack = 0 if clean else (1 if r.chance(1, 6) else 0)
+            noack = 0 if (clean and not self.quirks.get("noackFix")) else (1 if r.chance(1, 6) else 0)
             return "read %d %d > %s %d" % (g, c, count, noack)
         if k < 55:
-            if clean:
+            if clean and not self.quirks.get("histFix"):
                 return "read %d %d > 1 0" % (g, c)
             return "read %d %d %s %s %d" % (g, c, sid(self.any_id(stream)), r.choice(["-", "1", "2"]), r.below(2) if r.chance(1, 4) else 0)
         if k < 68:
@@ -212,6 +249,8 @@ class Gen:
             return "pending %d" % g
         # XPENDING with a range
         a, b = self.any_id(stream), self.any_id(stream)
+        if clean and self.quirks.get("rangeFix") and r.chance(1, 4):
+            return "prange %d %s %s %d -" % (g, sid(max(a, b)), sid(min(a, b)), r.choice([1, 10]))      # reversed (or equal) bounds
         if clean:
             lo, hi = min(a, b), max(a, b)
             form = r.below(3)
@@ -295,6 +334,25 @@ class Runner:
         p_reply, p_stream, p_groups = self.prev
         w = op.split(" ")
         g = op_group(op)
+        # ---- first-class oracle: a REFUSED command (BUSYGROUP, NOGROUP, refused XADD, malformed / wrong-type command) changes
+        #      nothing: the stream and every representation of every group are exactly what they were
+        if reply in REFUSALS or w[0] == "bad":
+            cls = "%s.%s" % (w[0] if w[0] != "bad" else "bad-" + w[1], reply.split(":")[0])
+            loaded = g in p_groups and bool(p_groups[g].pending_ids or p_groups[g].last != (0, 0))
+            rep.count("refused." + cls + (".group-with-state" if loaded else ""))
+            rep.nontrivial(("refused", cls, loaded, self.handlers))
+            if w[0] == "bad" and reply != "refused":
+                out["oracle"].append(("refused-op", "malformed command `%s` was not refused: %s" % (op, reply)))
+            before = {h: d.text for h, d in p_groups.items()}
+            after = {h: d.text for h, d in groups.items()}
+            if before != after or p_stream != stream:
+                changed = sorted(h for h in set(before) | set(after) if before.get(h) != after.get(h))
+                out["oracle"].append(("refused-op", "`%s` was refused (%s) but changed %s: before %s / after %s" % (
+                    op, reply, "group(s) %s" % changed if changed else "the stream",
+                    [before.get(h) for h in changed] or sids(p_stream), [after.get(h) for h in changed] or sids(stream))))
+            if w[0] == "bad":
+                self.prev = (reply, stream, groups)
+                return out
         if g is not None and judge_op != "" and not (reply == "nogroup" and g not in p_groups):
             pre = p_groups[g].text if g in p_groups else "none"
             post = groups[g].text if g in groups else "none"
@@ -556,6 +614,12 @@ CORPUS = {
     "xpending-consumer-filter-ignores-range": ["add 1-0", "add 2-0", "create 1 0-0", "read 1 1 > - 0", "prange 1 2-0 2-0 10 1"],
 }
 EXTRA_CORPUS = [
+    # refused administration on a group WITH STATE changes nothing (second CREATE at the same / another start id / $, NOGROUP, malformed)
+    ["add 1-0", "add 2-0", "add 3-0", "create 1 0-0", "read 1 1 > 2 0", "read 1 2 > 1 0", "ack 1 1-0", "create 1 0-0", "pending 1",
+     "create 1 $", "pending 1", "create 1 2-0", "prange 1 - + 10 -", "add 4-0", "read 1 3 > - 0", "ack 1 2-0|3-0|4-0", "pending 1",
+     "setid 2 0-0", "delc 2 1", "createc 2 1", "ack 2 1-0", "claim 2 1 0 0 1-0", "read 2 1 > - 0", "pending 2", "bad create-badid 1",
+     "bad create-arity 1", "bad setid-badid 1", "bad delc-arity 1", "bad create-wrongtype 1", "bad unknown-sub 1", "pending 1",
+     "create 2 $", "create 2 0-0", "add 5-0", "read 2 1 > - 0", "destroy 2", "create 2 0-0", "read 2 1 > 1 0", "create 2 5-0", "read 2 2 > 1 0", "pending 2"],
     ["add 1-0", "add 2-0", "add 3-0", "create 1 0-0", "create 2 0-0", "read 1 1 > 1 0", "read 1 2 > 1 0", "read 2 3 > - 0",
      "claim 1 3 0 0 1-0|1-0|9-9", "ack 1 2-0|2-0|7-7", "pending 1", "pending 2", "delc 2 3", "pending 2", "del 1-0", "claim 1 1 huge 0 1-0",
      "claim 1 1 huge 1 1-0", "prange 1 - + 10 -", "destroy 2", "pending 2", "read 1 1 > - 0", "add 4-0", "read 1 1 > 0 0", "read 1 1 > 2 0"],
@@ -603,7 +667,9 @@ def main(tier, seed):
     findings = load_findings()
     if os.environ.get("C16_IGNORE_FINDING"):             # sanity-testing of the violation path only
         findings = [f for f in findings if f["id"] != os.environ["C16_IGNORE_FINDING"]]
-    by_shape = {f["match"]: f for f in findings}
+    # a finding whose repair is in the tree is closed: if its shape shows up again it is a NEW violation, not a known one
+    by_shape = {f["match"]: f for f in findings if not (quirk_of_shape(f["match"]) and quirks.get(quirk_of_shape(f["match"])))}
+    rep.extra["open_findings_expected"] = sorted(f["id"] for f in by_shape.values())
 
     run = Runner(rep, quirks)
     hrun = Runner(rep, quirks, handlers=True)
@@ -667,7 +733,7 @@ def main(tier, seed):
         for h in range(n_hist):
             hr = r.fork("h%d" % h)
             clean = hr.chance(1, 2)
-            gen = Gen(hr, clean)
+            gen = Gen(hr, clean, quirks)
             run.start()
             ops, steps = [], []
             for _ in range(hr.range(15, 45)):
